@@ -7,8 +7,8 @@ import (
 )
 
 // Big cases: tables and requests beyond the sizes the other shards use – deep patterns (up to 300
-// fragments and parameters), wide nodes (up to 70 000 literal siblings next to a parameter and a
-// catch-all), long fragments and values (up to 70 000 bytes), long parameter names. A fixed-size
+// fragments and parameters), wide nodes (up to 16 385 literal siblings next to a parameter and a
+// catch-all; thorough 70 000), long fragments and values (up to 70 000 bytes), long parameter names. A fixed-size
 // array, a narrower integer, a pooled slice sized for the common case or a fast path for short
 // paths shows only here. The oracle is the same reference router.
 
@@ -73,7 +73,7 @@ func bigCases(r *rand.Rand, thorough bool) []Case {
 	if thorough {
 		wides = append(wides, 65535, 65536, 65537, 70000)
 	} else {
-		wides = append(wides, 65537)
+		wides = append(wides, 16385) // (the reference router checks a new route against every earlier one: quadratic)
 	}
 	for _, n := range wides {
 		var cs Case
